@@ -45,7 +45,7 @@ class Run:
         plain = tuple(n for n, sv in zip(self.names, cfg["safe"]) if sv is None)
         self._now = [T0]
         uod = make_uod(self.cmd_log, outputs_safe=safe, outputs_plain=plain, with_acc=False, now_fn=lambda: self._now[0],
-                       id_in_log=True)
+                       id_in_log=True, default_dur=int(cfg.get("user_dur", 0)))
         # registers are created safe-first by make_uod; the model indexes outputs in case order, so reorder the view
         for n, v in zip(self.names, cfg["outs0"]):
             uod.tags[n].set_value(float(v), T0)
@@ -374,7 +374,8 @@ def input_to_coq(case, obs):
         elif k == "user":
             ops.append(f"OUser {request_coq(lo, [op[1]], True, obs['tracked'])} {op[1]}")
         elif k == "useruod":
-            ops.append(f"OUserUod {request_coq(lo, ['uod', op[1], [0, None, None]], True, obs['tracked'])}" if hi > lo else "ONop")
+            ops.append(f"OUserUod {request_coq(lo, ['uod', op[1], [int(cfg.get('user_dur', 0)), None, None]], True, obs['tracked'])}"
+                       if hi > lo else "ONop")
         else:
             ops.append(f"OSetOut {nat(op[1])} {z(op[2])}")
     return tup(c, lst(ops))
